@@ -43,3 +43,25 @@ package client
 //@ func (*Client).setFailureCondition
 //@   modifies fd.forceFailureErr, fd.mu
 //@   ensures[C15] fd.forceFailureErr == old(emulatingErrors[condition])
+
+// ---- C16: batch write rules ---------------------------------------------------------------------
+
+// a write request is valid iff it is exactly one of put / delete
+//@ func validateWriteRequest
+//@   ensures[C16] (result == nil) == ((req.DeleteRequest != nil) != (req.PutRequest != nil))
+
+// more than 25 write requests are rejected; a rejected batch has more than 25 requests or an invalid request
+//@ func validateBatchWriteItemInput
+//@   requires input != nil
+//@   ensures[C16] sumlen(dom(input.RequestItems), vals(input.RequestItems)) > 25 ==> result != nil
+//@   ensures[C16] result == nil ==> forall t string, j int :: {input.RequestItems[t][j]} t in input.RequestItems && 0 <= j && j < len(input.RequestItems[t]) ==>
+//@                ((input.RequestItems[t][j].DeleteRequest != nil) != (input.RequestItems[t][j].PutRequest != nil))
+//@   loop 1:
+//@     invariant count == sumlen(visited, vals(input.RequestItems)) && count >= 0
+//@     invariant forall t string, j int :: {input.RequestItems[t][j]} t in visited && 0 <= j && j < len(input.RequestItems[t]) ==>
+//@                ((input.RequestItems[t][j].DeleteRequest != nil) != (input.RequestItems[t][j].PutRequest != nil))
+//@   loop 2:
+//@     invariant count == sumlen(visited, vals(input.RequestItems)) - len(reqs) + rangeindex + 1 && rangeindex >= -1 && rangeindex < len(reqs)
+//@     invariant forall t string, j int :: {input.RequestItems[t][j]} t in visited && input.RequestItems[t] != reqs && 0 <= j && j < len(input.RequestItems[t]) ==>
+//@                ((input.RequestItems[t][j].DeleteRequest != nil) != (input.RequestItems[t][j].PutRequest != nil))
+//@     invariant forall j int :: {reqs[j]} 0 <= j && j <= rangeindex ==> ((reqs[j].DeleteRequest != nil) != (reqs[j].PutRequest != nil))
